@@ -516,14 +516,14 @@ Proof.
   cbn [append univ]. rewrite H1. destruct (Ascii.eqb_spec c LF) as [->|N]; cbn [append]; now rewrite (IH H2).
 Qed.
 
-Lemma client_override base params k : terminated base = true ->
-  dict_get k (read_text (client_text base params)) =
+Lemma client_override_pinned_partial base params k : terminated base = true ->
+  dict_get k (read_text (client_text_pinned base params)) =
   match dict_get k (read_text (cat (map param_line params))) with
   | Some e => Some e
   | None => dict_get k (read_text base)
   end.
 Proof.
-  intros T. unfold client_text, read_text, universal at 1. rewrite univ_nocr_app by apply univ_nocr.
+  intros T. unfold client_text_pinned, read_text, universal at 1. rewrite univ_nocr_app by apply univ_nocr.
   rewrite readlines_app by exact T. apply last_wins.
 Qed.
 
@@ -588,8 +588,8 @@ Proof.
 Qed.
 
 Lemma client_override_counterexample : exists (base : string) (params : list (string * string)) (k v : string),
-  In (k, v) params /\ clean_param (k, v) = true /\ dict_get k (read_text (client_text base params)) = None
-  /\ option_map e_sval (dict_get "A" (read_text (client_text base params))) = Some "1B".
+  In (k, v) params /\ clean_param (k, v) = true /\ dict_get k (read_text (client_text_pinned base params)) = None
+  /\ option_map e_sval (dict_get "A" (read_text (client_text_pinned base params))) = Some "1B".
 Proof. exists "A, 1", [("B", "2")], "B", "2". repeat split; vm_compute; auto. Qed.
 
 (* argument orders of the statements in Props/C12.v *)
@@ -612,7 +612,7 @@ Proof.
   - now apply comment_line.
 Qed.
 
-(* ------------------------------------------------------------------ the proposed repair of the client's append *)
+(* ------------------------------------------------------------------ the client's append after fix e85b257 *)
 Lemma complete_cons c v : complete v = true -> v <> "" -> complete (String c v) = true.
 Proof. intros H N. cbn. destruct v; [congruence | exact H]. Qed.
 
@@ -644,15 +644,15 @@ Proof.
   - unfold parse_lines. cbn [flat_map is_empty]. now rewrite (parse_line_eol (String c w')).
 Qed.
 
-Lemma client_override_repaired base params k :
-  dict_get k (read_text (client_text_repaired base params)) =
+Lemma client_override base params k :
+  dict_get k (read_text (client_text base params)) =
   match dict_get k (read_text (cat (map param_line params))) with
   | Some e => Some e
   | None => dict_get k (read_text base)
   end.
 Proof.
-  unfold client_text_repaired. destruct (complete (universal base)) eqn:T.
-  - exact (client_override base params k T).
+  unfold client_text. destruct (complete (universal base)) eqn:T.
+  - exact (client_override_pinned_partial base params k T).
   - unfold read_text, universal at 1.
     assert (NC : nochar CR (universal base ++ String LF "") = true) by (rewrite nochar_app; unfold universal; now rewrite univ_nocr).
     rewrite univ_nocr_app by exact NC.
